@@ -5,8 +5,8 @@
  "properties": {"C05": "contract", "C10": "contract", "C19": "safety"},
  "mode": "harness",
  "replace_calls": {"assignexpr": "stub_assignexpr"}, "replay": false,
- "link_repo": ["type.c"],
- "unwind": 5, "unwindset": ["typecompatible:3", "typecompatible.0:2", "delexpr:2"],
+ "link_repo": ["type.c"], "stubs": ["base.c", "array_model.c"],
+ "unwind": 5, "unwindset": ["typecompatible:3", "typecompatible.0:2", "delexpr:2", "arrayadd.0:2"],
  "variants": {"TT": ["-DV_SHAPE=G_TT"], "TD": ["-DV_SHAPE=G_TD"], "DT": ["-DV_SHAPE=G_DT"], "DD": ["-DV_SHAPE=G_DD"], "TTD": ["-DV_SHAPE=G_TTD"], "TTT": ["-DV_SHAPE=G_TTT"], "N": ["-DV_SHAPE=G_N"]},
  "canary_variant": "TTD",
  "cflags": ["-DCHECK_MAIN"],
